@@ -47,7 +47,13 @@ def finish_worker(ctx):
 
 def make_case(ctx, idx):
     r = case_rng(ctx.seed, ID, idx)
-    return {"ops": gen.Gen(r, gen.profile("c02", p_repeat_id=0.2)).program(), "other": gen.Gen(r, gen.profile("c02", max_steps=5)).program(),
+    if r.random() < 0.5:
+        # identifiers from a small pool: same-kind records sharing an identifier (merged by unified()) inside and outside bundles
+        prof = gen.profile("c02", p_repeat_id=0.6, locals=["e1", "e2", "a1"], prefixes=["ex", "ex2"], ns_uris=["http://ex.org/", "urn:x:"],
+                           kinds=("Entity", "Entity", "Activity", "Agent", "Generation", "Usage", "Derivation", "Attribution"), max_steps=16)
+    else:
+        prof = gen.profile("c02", p_repeat_id=0.2)
+    return {"ops": gen.Gen(r, prof).program(), "other": gen.Gen(r, gen.profile("c02", max_steps=5)).program(),
             "derive": r.sample(DERIVE, 3), "seed": r.randint(0, 2 ** 30)}
 
 
